@@ -149,7 +149,43 @@ def gen_request(rng, zone_names):
     return msg
 
 
-def gen_case(rng, loaded=True, mutate_p=0.3):
+def gen_clean_case(rng):
+    """A well-formed QUERY (optionally with a valid OPT) for a name at or near an owner of a Loaded zone of the
+    right class: exercises query answering (CNAME chains, referrals, wildcards, additional processing)."""
+    while True:
+        cat, names = gen_catalog(rng, True)
+        loaded = [e for e in cat.split(";") if e != "-" and e.split(",")[2] == "L"] if cat != "-" else []
+        if loaded:
+            break
+    e = rng.choice(loaded).split(",")
+    cl = int(e[0])
+    owners = []
+    for r in e[3].split("+"):
+        o = bytes.fromhex(r.split("/")[0])
+        labels, i = [], 0
+        while o[i] != 0:
+            labels.append(o[i + 1:i + 1 + o[i]]); i += 1 + o[i]
+        owners.append(labels)
+    labels = list(rng.choice(owners))
+    r = rng.random()
+    if r < 0.25:
+        labels = [rng.choice([b"nx", b"x", b"deep", b"*"])] + labels
+    elif r < 0.35 and labels:
+        labels = labels[1:]
+    if rng.random() < 0.2:
+        labels = [l.swapcase() for l in labels]
+    qtype = rng.choice([1, 1, 1, 2, 5, 6, 15, 16, 28, 33, 255, 99])
+    ar = [rr(enc_name([]), 41, rng.choice([512, 1232, 4096]), 0, [])] if rng.random() < 0.4 else []
+    msg = u16(rng.randrange(65536)) + u16(rng.choice([0, 0x0100])) + u16(1) + u16(0) + u16(0) + u16(len(ar)) + \
+        enc_name(labels) + u16(qtype) + u16(cl)
+    for x in ar:
+        msg += x
+    return f"{rng.choice(['u', 't', 't'])} {rng.choice([512, 1232, 4096])} {cat} - {hx(msg)}"
+
+
+def gen_case(rng, loaded=True, mutate_p=0.3, clean_p=0.0):
+    if clean_p and rng.random() < clean_p:
+        return gen_clean_case(rng)
     cat, names = gen_catalog(rng, loaded)
     keys = gen_keys(rng)
     tr = rng.choice(["u", "u", "t"])
